@@ -351,6 +351,10 @@ func (viso *VirtualISO) makeDirEntries(item *dirItem, joliet bool) error {
 				lba += multiExtentPartSize.sectors()
 			}
 
+			if entry.size() > maxDirEntrySize {
+				return fmt.Errorf("name of file %s is too long for directory record", fileItem.path)
+			}
+
 			if joliet {
 				item.dirEntryJoliet = append(item.dirEntryJoliet, entry)
 			} else {
@@ -374,6 +378,10 @@ func (viso *VirtualISO) makeDirEntries(item *dirItem, joliet bool) error {
 			VolumeSequenceNumber: 1,
 			RecordingDateTime:    recordingTimestamp(dirItem.modTime),
 			Identifier:           makeIdentifier(dirItem.name, joliet),
+		}
+
+		if entry.size() > maxDirEntrySize {
+			return fmt.Errorf("name of directory %s is too long for directory record", dirItem.path)
 		}
 
 		if joliet {
